@@ -575,6 +575,10 @@ def gen_vti_spec(rng, quick, doms):
         else:
             v = gen_vector(rng, dom3, n_, want='cell')
         vectors.append(v)
+    while sum(len(v['values']) for v in vectors) > 2500 and len(vectors) > 1:
+        vectors.pop()        # keep one case below the size a Coq literal can have
+    if sum(len(v['values']) for v in vectors) > 2500:
+        vectors = [gen_vector(rng, dom3, names[0], want='cell')]
     spec = dict(kind='vti', domain=list(dom3), vectors=vectors)
     r = rng.random()
     if r < 0.5:
@@ -592,7 +596,8 @@ def gen_vti_spec(rng, quick, doms):
 
 
 def gen_vti_malformed(rng, doms):
-    dom3 = rng.choice(doms + [(1, 1, 0), (2, 1, 0), (4, 3, 1), (3, 4, 0), (2, 2, 1)])
+    small = [d for d in doms if (d[0] + 1) * (d[1] + 1) * (d[2] + 1) <= 30]     # keeps nel*nn, nn*nn arrays small
+    dom3 = rng.choice(small + [(1, 1, 0), (2, 1, 0), (4, 3, 1), (3, 4, 0), (2, 2, 1)])
     a, b, c = dom3
     nel, nn = a * b * max(c, 1), (a + 1) * (b + 1) * (c + 1)
     what = rng.choice(['neither', 'neither+ok', 'ndim3', 'ambiguous-block', 'ambiguous-total', 'one-vector-block', 'empty-dict', 'zero-size',
@@ -647,6 +652,11 @@ def gen_wvti_spec(rng, doms):
             v = gen_vector(rng, dom3, t, want='cell')
         protos.append(v)
     niter = rng.choice([1, 2, 3, 4, 5])
+    while niter * sum(int(np.prod(p['shape'])) for p in protos) > 5000 and len(protos) > 1:
+        protos.pop()
+        tags.pop()
+    if niter * sum(int(np.prod(p['shape'])) for p in protos) > 5000:
+        protos = [gen_vector(rng, dom3, tags[0], want='cell')]
     its = []
     for _ in range(niter):
         its.append([dict(p, values=rand_values(rng, int(np.prod(p['shape'])), 'dyadic' if p.get('dtype') != 'i8' else 'int')) for p in protos])
@@ -885,11 +895,14 @@ def _within_format(v, parsed, fmt):
     t = m.group(3).lower()
     if prec is None:
         return parsed == v
+    slack = 4e-16 * abs(v)          # resolution of binary64 at v (the text is correctly rounded, parsing it rounds again)
     if t == 'f':
-        return abs(parsed - v) <= 0.5000001 * 10.0 ** (-prec)
-    if t == 'e':
-        return abs(parsed - v) <= 0.5000001 * 10.0 ** (-prec) * 10.0 ** math.floor(math.log10(abs(v))) * 1.0000001 if v != 0 else parsed == 0
-    return abs(parsed - v) <= 0.5000001 * 10.0 ** (1 - max(prec, 1)) * 10.0 ** math.floor(math.log10(abs(v))) * 1.0000001 if v != 0 else parsed == 0
+        return abs(parsed - v) <= 0.5000001 * 10.0 ** (-prec) + slack
+    if v == 0:
+        return parsed == 0
+    mag = 10.0 ** math.floor(math.log10(abs(v)))
+    digits = prec if t == 'e' else max(prec, 1) - 1
+    return abs(parsed - v) <= 0.5000001 * 10.0 ** (-digits) * mag * 1.0000001 + slack
 
 
 def _point_but_total_cell(dom, a):
